@@ -2,3 +2,5 @@
 import SodiumVerif.Model.Store
 import SodiumVerif.Model.Gc
 import SodiumVerif.Model.GcScript
+import SodiumVerif.Model.Sched
+import SodiumVerif.Model.SchedScript
